@@ -433,10 +433,19 @@ func checkShard(t failer, l *layout, w *world, m *shardModel) *shardFacts {
 		}
 		set := make(map[int]bool, len(pubKeys))
 		lst := make([]int, 0, len(pubKeys))
-		for _, pk := range pubKeys {
+		perAuthor := w.lot.CandidatesPerAuthor(sid)[a]
+		for j, pk := range pubKeys {
 			ci, ok := m.pubIndex[string(pk)]
 			if !ok {
 				fail("author %d encrypts for a public key that is not a candidate of the shard: %x", a, pk)
+			}
+			if len(pk) == 0 {
+				// several candidates may have no registered key (genesis identities): the key does not name the
+				// candidate then, the position in the author's recipient list does
+				if j >= len(perAuthor) || perAuthor[j] < 0 || perAuthor[j] >= n || len(m.cands[perAuthor[j]].PubKey) != 0 {
+					fail("author %d: recipient %d has no key but the recipient list does not name a key-less candidate there", a, j)
+				}
+				ci = perAuthor[j]
 			}
 			set[ci] = true
 			lst = append(lst, ci)
@@ -991,6 +1000,26 @@ func TestLotteryExhaustiveSmall(t *testing.T) {
 func TestKeyDelivery(t *testing.T) {
 	rapid.Check(t, func(t *rapid.T) {
 		l := drawLayout(t, 24, true)
+		// candidates without a registered public key (identities allocated in genesis never sent an activation tx):
+		// nothing can be encrypted for them, everybody else must still find its own slot
+		kl := rapid.SampledFrom([]string{"none", "none", "one", "few", "few", "all"}).Draw(t, "keyless")
+		if len(l.Idents) == 0 {
+			kl = "none"
+		}
+		switch kl {
+		case "one", "few":
+			k := 1
+			if kl == "few" {
+				k = rapid.IntRange(2, 4).Draw(t, "keylessCount")
+			}
+			for x := 0; x < k; x++ {
+				l.Idents[rapid.IntRange(0, len(l.Idents)-1).Draw(t, "keylessIdx")].PubKey = nil
+			}
+		case "all":
+			for i := range l.Idents {
+				l.Idents[i].PubKey = nil
+			}
+		}
 		evid.Eval()
 		w, models, facts := checkLayout(t, l, "crypto.")
 		outsider := deriveKey("outsider", hex.EncodeToString(l.Seed))
@@ -1076,6 +1105,16 @@ func checkAuthorPackage(t *rapid.T, l *layout, w *world, m *shardModel, f *shard
 			idx := w.lot.PrivateKeyPackageIndex(cand.Addr, author.Addr)
 			if idx < 0 || idx >= len(slots) {
 				fail("recipient %d gets package slot %d of %d", c, idx, len(slots))
+			}
+			if len(cand.PubKey) == 0 {
+				// no key to encrypt for: its slot is a placeholder (outside the statement: the candidate has no key)
+				if len(slots[idx]) != 0 {
+					if plain, err := decryptWith(cand.Key, slots[idx]); err == nil && bytes.Equal(plain, want) {
+						fail("recipient %d has no registered key yet decrypts slot %d", c, idx)
+					}
+				}
+				evid.Count("crypto.keyless-recipient-slot")
+				continue
 			}
 			plain, err := decryptWith(cand.Key, slots[idx])
 			if err != nil || !bytes.Equal(plain, want) {
